@@ -1,4 +1,4 @@
-CONSTANTS N = 400  MaxOps = 12
+CONSTANTS N = 400  MaxOps = 12  WithTxn = FALSE
 SPECIFICATION Spec
 VIEW view
 INVARIANT CountsConsistent
